@@ -7,6 +7,7 @@
 //!                        | r (revoke) | f<e> (accept() fails with EMFILE for 200+500e ms while a client knocks)
 //!                        | F<e> (the same, and the permit is revoked while accept() is still failing)
 //!                        | L (a stalled global logger is installed for the rest of the case)
+//!                        | G<e> (accept() fails for 200+500e ms while the global logger is stalled; then both recover)
 #![allow(dead_code)]
 use crate::srv_common::*;
 use permit::Permit;
@@ -177,6 +178,30 @@ fn acc_case(toks: &[String]) -> (String, bool) {
             let k: usize = k.split(':').next().unwrap().parse().unwrap();
             do_end(k);
             pred.end(k);
+        } else if let Some(e) = c.strip_prefix('G') {
+            // accept() fails (EMFILE, as for f<e>) WHILE the global logger's queue is full and undrained; afterwards the
+            // limit is restored and the logger drained again.  The failure must not cost the server its accept loop:
+            // the client that knocked is admitted.
+            let e: u64 = e.parse().unwrap_or(1).max(1);
+            let (tx, rx) = std::sync::mpsc::sync_channel(1);
+            let _ = tx.send(servlin::log::internal::LogEvent::new(servlin::log::Level::Info, ()));
+            let guard = servlin::log::set_global_logger(tx).ok();
+            let mut lim = [0u64; 2];
+            unsafe { getrlimit(RLIMIT_NOFILE, &mut lim) };
+            let cur = open_fds();
+            let client = TcpStream::connect_timeout(&addr, Duration::from_millis(1000)).ok();
+            let low = [cur.min(lim[0]), lim[1]];
+            unsafe { setrlimit(RLIMIT_NOFILE, &low) };
+            std::thread::sleep(Duration::from_millis(200 + 500 * e));
+            unsafe { setrlimit(RLIMIT_NOFILE, &lim) };
+            // the logger works again: everything queued and everything sent from now on is taken
+            let drainer = std::thread::spawn(move || for _ev in rx {});
+            clients.push(client);
+            pred.connect();
+            step(&pred, &mut stopped, &mut out, &mut matched);
+            drop(guard);
+            let _ = drainer.join();
+            continue;
         } else if let Some(e) = c.strip_prefix('f').or_else(|| c.strip_prefix('F')) {
             // accept failures: lower the descriptor limit below what accept() needs, let a client
             // knock, keep it so for 200 + 500*e ms (e retry rounds of the loop's 500 ms pause), then
